@@ -26,9 +26,13 @@ def main():
     import sparse
     from sparse.mlir_backend import _conversions as CV
     from sparse.mlir_backend import formats as F
+    from sparse.mlir_backend._array import Array as BArray
 
     tasks = json.load(sys.stdin)
     out = sys.stdout
+    # everything imported so far is permanent: keep it out of the collections the tasks ask for after every statement
+    gc.collect()
+    gc.freeze()
 
     # Guard: never let the backend hand a NumPy-owned buffer to free() inside this process (heap corruption would
     # surface in an unrelated later task).  `free_memref` is replaced by a wrapper that refuses pointers lying in
@@ -391,21 +395,24 @@ def main():
         def name(self, obj, role):
             key = id(obj)
             old = self.role.get(key)
-            self.role[key] = role
             if old is None:
+                self.role[key] = role
+
                 def fin(key=key):
                     self.events.append(["finalized", self.role.pop(key, "?")])
 
                 weakref.finalize(obj, fin).atexit = False
             elif old != role:
-                self._subst(old, role)
+                self.rename(old, role)
             return role
 
         def rename(self, old, new):
-            for k, r in list(self.role.items()):
-                if r == old:
-                    self.role[k] = new
-            self._subst(old, new)
+            """also the raw-pointer array underneath a re-viewed constituent array (role "raw:<role of the view>")"""
+            for o, n in ((old, new), ("raw:" + old, "raw:" + new)):
+                for k, r in list(self.role.items()):
+                    if r == o:
+                        self.role[k] = n
+                self._subst(o, n)
 
         def role_of(self, obj):
             r = self.role.get(id(obj))
@@ -417,16 +424,30 @@ def main():
     def t_ownership(t):
         """run a program of statements, then delete the listed names in the given order.
 
-        statements: ["np", name, spec] | ["asarray", name, src] | ["from_arrays", name, fmtspec, [names], shape]
-                    | ["op", name, opname, [names], params] | ["views", [names], src] | ["to_numpy", name, src]
-                    | ["copy", name, src]
+        statements: ["np", name, spec] | ["scipy", name, spec, [names of its arrays]?] | ["asarray", name, src, copy?]
+                    | ["from_arrays", name, fmtspec, [names], shape] | ["op", name, opname, [names], params]
+                    | ["views", [names], src] | ["to_numpy", name, src] | ["to_scipy", name, src] | ["copy", name, src]
+
+        Every array the program reads through a surviving name (a NumPy array, the attributes of a SciPy matrix, the fields
+        of a backend array) is bound, when it is created, to the allocation it points into: an external NumPy array that
+        owns its buffer (given by the program, or a copy the library made) or an owning storage.  After each deletion step the
+        weak reference to that allocation's owner decides "released while a view is alive" (no reliance on reused memory
+        showing different values); then blocks of the released sizes are allocated and scribbled over and every survivor is
+        re-read and compared with the values saved before the first deletion.
         """
         tr = Tracker()
         orig_hold, orig_free = F._hold_ref, F.free_memref
 
         def hold(owner, obj):
+            if isinstance(obj, np.ndarray):   # a storage built over `obj`: the allocation behind it is an external source buffer
+                root = obj
+                while isinstance(root.base, np.ndarray):
+                    root = root.base
+                if root.flags.owndata:
+                    reg_alloc(root, root)
             if not tr.quiet:
                 tr.events.append(["hold", tr.role_of(owner), tr.role_of(obj)])
+                held.append((weakref.ref(owner), weakref.ref(obj)))
             return orig_hold(owner, obj)
 
         def free(ref):
@@ -442,7 +463,23 @@ def main():
                 problems.append("free() of a buffer owned by another object attempted (prevented by the harness)")
             return r
 
-        F._hold_ref, F.free_memref = hold, free
+        orig_m2n = F.ranked_memref_to_numpy
+
+        def memref_to_numpy(ref):
+            """names the pair of objects the MLIR runtime makes for an element type it re-views (complex64/128, float16):
+            `raw` (the raw-pointer array) and `raw.view(dtype)` (what get_constituent_arrays returns; NumPy bases every further
+            view on `raw`).  Which of the two gets the keep-alive is what the `_hold_ref` log shows."""
+            arr = orig_m2n(ref)
+            if not tr.quiet and isinstance(arr.base, np.ndarray):
+                r = tr.role_of(arr)
+                root = arr
+                while isinstance(root.base, np.ndarray):
+                    root = root.base
+                tr.name(root, "raw:" + r)
+                tr.events.append(["cast", r])
+            return arr
+
+        F._hold_ref, F.free_memref, F.ranked_memref_to_numpy = hold, free, memref_to_numpy
         GUARD["ranges"] = []
         GUARD["invalid"] = []
         GUARD["shared"] = {}
@@ -452,6 +489,65 @@ def main():
         sizes = []
         trace = []
         problems = []
+        held = []        # (weakref owner, weakref obj) of the `_hold_ref` calls of the running statement
+        allocs = []      # [lo, hi, weakref to the object whose finalisation releases the block, id of that object]
+        known = set()
+        bound = {}       # name -> [(part, weakref to the owner of the allocation the part points into, role of the owner)]
+        untracked = []
+
+        def reg_alloc(owner, arr=None, lo=None, nbytes=None):
+            """`owner`: the object whose finalisation releases the block (a NumPy array that owns its data, an owning storage)"""
+            if arr is not None:
+                lo, nbytes = arr.ctypes.data, arr.nbytes
+            if not nbytes or (id(owner), lo) in known:
+                return
+            known.add((id(owner), lo))
+            allocs.append([lo, lo + nbytes, weakref.ref(owner), id(owner)])
+
+        def parts_of(v):
+            """the NumPy arrays through which the program reads `v`"""
+            if isinstance(v, np.ndarray):
+                return [("", v)]
+            if isinstance(v, sps.sparray | sps.spmatrix):
+                names = ("row", "col", "data") if v.format == "coo" else ("indptr", "indices", "data")
+                return [(n, getattr(v, n)) for n in names]
+            tr.quiet += 1
+            try:
+                return [(f"field {k}", a) for k, a in enumerate(v.get_constituent_arrays())]
+            finally:
+                tr.quiet -= 1
+
+        def bind(name):
+            """resolve, now that everything is alive, which allocation every part of `env[name]` points into; what is checked
+            after each deletion is the weak reference to that allocation's owner, not the bytes"""
+            res = []
+            for part, a in parts_of(env[name]):
+                if a.nbytes == 0:
+                    continue
+                root = a
+                while isinstance(root.base, np.ndarray):
+                    root = root.base
+                if root.flags.owndata:      # a NumPy base chain down to an array that owns its data: kept alive by NumPy itself
+                    continue
+                p = a.ctypes.data
+                hit = None
+                for lo, hi, ref, oid in reversed(allocs):
+                    if lo <= p < hi and ref() is not None:
+                        hit = (ref, tr.role.get(oid, "an internal array"))
+                        break
+                if hit is None:
+                    untracked.append(f"{name}{' ' + part if part else ''}: points to {p:#x}, inside no live allocation the harness tracks")
+                else:
+                    res.append((part, hit[0], hit[1]))
+            bound[name] = res
+
+        def freed_while_alive():
+            bad = []
+            for n in env:
+                for part, ref, role in bound.get(n, []):
+                    if ref() is None:
+                        bad.append({"name": n, "part": part, "allocation": role})
+            return bad
 
         def snapshot(name):
             v = env[name]
@@ -459,6 +555,8 @@ def main():
             try:
                 if isinstance(v, np.ndarray):
                     return ["np", list(v.shape), enc_vals(np.ascontiguousarray(v))]
+                if isinstance(v, sps.sparray | sps.spmatrix):
+                    return ["sp", scipy_json(v)]
                 return ["arr", desc(v)]
             finally:
                 tr.quiet -= 1
@@ -469,6 +567,10 @@ def main():
             tr.name(st, f"storage:{name}")
             nfields = len(st.get__fields_())
             if owning:
+                tr.quiet += 1
+                for v in x.get_constituent_arrays():
+                    reg_alloc(st, lo=v.ctypes.data, nbytes=v.nbytes)
+                tr.quiet -= 1
                 for k, (alloc, _al, n) in enumerate(storage_ptrs(x)):
                     if alloc:
                         if alloc in tr.buf_of:
@@ -480,27 +582,99 @@ def main():
             del st
             return nfields
 
+        def held_view(ev, src=None):
+            """for a `_hold_ref(<constituent array or the raw array underneath it>, storage)` event whose array has no name yet:
+            the (anonymous) role of the constituent array, else None"""
+            if ev[0] != "hold" or not ev[2].startswith("storage:") or (src is not None and ev[2] != f"storage:{src}"):
+                return None
+            r = ev[1][4:] if ev[1].startswith("raw:") else ev[1]
+            return r if r.startswith("anon") else None
+
+        def name_copy_objects(new, src):
+            """`Array.copy()`: the copies the new storage holds and the views of the source they were made from"""
+            k = 0
+            for ev in list(tr.events):
+                if ev[0] == "hold" and ev[1] == f"storage:{new}" and ev[2].startswith("anon"):
+                    tr.rename(ev[2], f"np:{new}:{k}")
+                    k += 1
+            k = 0
+            for ev in list(tr.events):
+                r = held_view(ev, src)
+                if r:
+                    tr.rename(r, f"view:copy-{new}:{k}")
+                    k += 1
+
         try:
             for st in t["program"]:
                 tr.events = []
+                del held[:]
                 kind = st[0]
                 info = {}
                 if kind == "np":
                     a = build_numpy(st[2])
                     env[st[1]] = a
                     tr.name(a, f"np:{st[1]}")
+                    reg_alloc(a, a)
                     inbytes[st[1]] = a.tobytes()
                     GUARD["ranges"] += input_ranges([a])
                     sizes.append(a.size)
                     del a
+                elif kind == "scipy":
+                    # a SciPy matrix whose attribute arrays own their buffers; the program keeps no reference of its own to
+                    # them unless the statement names them (st[3]: names for the arrays in the order `_from_scipy` uses them)
+                    m = build_scipy(st[2])
+                    m.data = m.data.copy()
+                    if m.format == "coo":
+                        m.coords = tuple(c.copy() for c in m.coords)
+                        comps = [m.row, m.col, m.data]
+                    else:
+                        m.indptr, m.indices = m.indptr.copy(), m.indices.copy()
+                        comps = [m.indptr, m.indices, m.data]
+                    tr.name(m, f"scipy:{st[1]}")
+                    for k, c in enumerate(comps):
+                        if not c.flags.owndata:
+                            raise RuntimeError("scipy component does not own its buffer")
+                        tr.name(c, f"np:{st[1]}:{k}")
+                        reg_alloc(c, c)
+                        sizes.append(c.size)
+                        GUARD["ranges"] += input_ranges([c])
+                    for n, c in zip(st[3] if len(st) > 3 else [], comps):
+                        if n is not None:
+                            env[n] = c
+                            inbytes[n] = c.tobytes()
+                    env[st[1]] = m
+                    info["format"] = m.format
+                    del m, comps, c
                 elif kind == "asarray":
-                    x = sparse.asarray(env[st[2]])
-                    info["nfields"] = register_array(st[1], x, False)
-                    for ev in list(tr.events):  # the flattened view `_from_numpy` hands to the storage
-                        if ev[0] == "hold" and ev[2].startswith("anon"):
-                            tr.rename(ev[2], f"flat:{st[1]}")
+                    src = env[st[2]]
+                    cp = st[3] if len(st) > 3 else None
+                    x = sparse.asarray(src, copy=cp)
+                    if isinstance(src, BArray):
+                        if x is src:
+                            info["alias_of"] = st[2]
+                        else:   # `asarray(x, copy=True)` is `x.copy()`
+                            info["nfields"] = register_array(st[1], x, False)
+                            info["copied"] = True
+                            name_copy_objects(st[1], st[2])
+                    else:
+                        info["nfields"] = register_array(st[1], x, False)
+                        k = 0
+                        for (_ow, ob), ev in zip(list(held), [e for e in tr.events if e[0] == "hold"]):
+                            o = ob()
+                            if isinstance(src, np.ndarray):
+                                # the flattened view `_from_numpy` hands to the storage; with copy=True its base is the copy
+                                if ev[2].startswith("anon"):
+                                    tr.rename(ev[2], f"flat:{st[1]}")
+                                if cp and o is not None and isinstance(o.base, np.ndarray) and o.base is not src:
+                                    tr.name(o.base, f"np:{st[1]}:copy")
+                                    info["copied"] = True
+                            elif ev[2].startswith("anon"):   # scipy: copies (`copy=True`) and the `pos` array of COO
+                                tr.rename(ev[2], f"np:{st[1]}:{'pos' if (src.format == 'coo' and k == 0) else k}")
+                                info["copied"] = bool(cp)
+                            k += 1
+                            del o
                     env[st[1]] = x
-                    del x
+                    del x, src
                 elif kind == "from_arrays":
                     f = build_format(st[2])
                     x = sparse.from_constituent_arrays(format=f, arrays=tuple(env[n] for n in st[3]), shape=tuple(st[4]))
@@ -548,40 +722,81 @@ def main():
                     a = sparse.to_numpy(env[st[2]])
                     env[st[1]] = a
                     tr.name(a, f"np:{st[1]}")
+                    for ev in list(tr.events):   # the single array of get_constituent_arrays() (it may be gone already)
+                        r = held_view(ev)
+                        if r:
+                            tr.rename(r, f"view:{st[1]}:data")
                     base = a.base
                     if base is not None:
-                        if id(base) in tr.role and tr.role[id(base)].startswith("anon"):
-                            tr.name(base, f"view:{st[1]}:data")
                         tr.events.append(["base", f"np:{st[1]}", tr.role.get(id(base), type(base).__name__)])
                     del a, base
                 elif kind == "copy":
                     x = env[st[2]].copy()
                     info["nfields"] = register_array(st[1], x, False)
-                    k = 0
-                    for ev in list(tr.events):
-                        if ev[0] == "hold" and ev[1] == f"storage:{st[1]}" and ev[2].startswith("anon"):
-                            tr.rename(ev[2], f"np:{st[1]}:{k}")
-                            k += 1
-                    k = 0
-                    for ev in list(tr.events):
-                        if ev[0] == "hold" and ev[1].startswith("anon") and ev[2] == f"storage:{st[2]}":
-                            tr.rename(ev[1], f"view:{st[1]}:{k}")
-                            k += 1
+                    name_copy_objects(st[1], st[2])
                     env[st[1]] = x
                     del x
+                elif kind == "to_scipy":
+                    m = sparse.to_scipy(env[st[2]])
+                    tr.name(m, f"scipy:{st[1]}")
+                    k = 0
+                    for ev in list(tr.events):   # the arrays of get_constituent_arrays(), in order
+                        r = held_view(ev, st[2])
+                        if r:
+                            tr.rename(r, f"view:{st[1]}:{k}")
+                            k += 1
+                    info["nviews"] = k
+                    comps = []
+                    names = ("data", "row", "col") if m.format == "coo" else ("data", "indices", "indptr")
+                    for j, an in enumerate(names):   # how each attribute of the matrix relates to the views it was given
+                        c = getattr(m, an)
+                        chain, r = [], c
+                        while isinstance(r, np.ndarray):
+                            chain.append(r)
+                            r = r.base
+                        hit = None
+                        for depth, r in enumerate(chain):
+                            role = tr.role.get(id(r), "")
+                            if role.startswith((f"view:{st[1]}:", f"raw:view:{st[1]}:")):
+                                hit = (depth, int(role.rsplit(":", 1)[1]), role)
+                                break
+                        if hit is None:
+                            comps.append([an, "copy"])
+                            tr.name(c, f"np:{st[1]}:{an}")
+                        elif hit[0] == 0:
+                            comps.append([an, "same", hit[1]])
+                        else:   # a NumPy view of the array given (or of the raw array underneath it)
+                            comps.append([an, "view", hit[1]])
+                            tr.name(c, f"np:{st[1]}:{an}")
+                            tr.events.append(["base", f"np:{st[1]}:{an}", hit[2]])
+                        del c, chain, r
+                    info["components"] = comps
+                    info["format"] = m.format
+                    env[st[1]] = m
+                    del m
                 else:
                     raise ValueError(kind)
                 gc.collect()
+                for n in env:
+                    if n not in bound:
+                        bind(n)
+                info["cast"] = sorted({ev[1] for ev in tr.events if ev[0] == "cast"})
                 trace.append({"stmt": st[:2], "events": tr.events, "info": info})
             for n in env:
                 snaps[n] = snapshot(n)
-            # deletions
+            early = freed_while_alive()
+            if early:
+                problems.append(f"an allocation was released before any deletion: {early}")
+            # deletions (a step deletes one name or a group of names)
             dels = []
             for name in t["delete"]:
                 tr.events = []
-                del env[name]
+                for n in (name if isinstance(name, list) else [name]):
+                    del env[n]
                 gc.collect()
+                fwa = freed_while_alive()      # decided by weak references, before any memory is reused
                 poison(sizes[-6:], np)
+                churn = [np.full(max(int(n), 1), 0x5A, dtype=np.uint8) for n in sizes[-8:] for _ in range(3)]
                 ok = {}
                 for n in env:
                     try:
@@ -589,11 +804,13 @@ def main():
                     except Exception as e:  # noqa: BLE001
                         ok[n] = f"{type(e).__name__}: {str(e)[:100]}"
                 inputs_ok = {n: (env[n].tobytes() == b) for n, b in inbytes.items() if n in env}
-                dels.append({"deleted": name, "events": tr.events, "survivors_ok": ok, "inputs_ok": inputs_ok})
+                del churn
+                dels.append({"deleted": name, "events": tr.events, "survivors_ok": ok, "inputs_ok": inputs_ok,
+                             "freed_while_alive": fwa, "survivors": sorted(env)})
             tr.events = []
-            return {"trace": trace, "dels": dels, "problems": problems}
+            return {"trace": trace, "dels": dels, "problems": problems, "untracked": untracked}
         finally:
-            F._hold_ref, F.free_memref = orig_hold, guarded_free
+            F._hold_ref, F.free_memref, F.ranked_memref_to_numpy = orig_hold, guarded_free, orig_m2n
             GUARD["ranges"] = []
 
     handlers = {"roundtrip": t_roundtrip, "to_numpy_order": t_to_numpy_order, "op": t_op, "determine": t_determine,
